@@ -62,7 +62,7 @@ def heading(state: StateBlock, startLine: int, endLine: int, silent: bool) -> bo
     token.map = [startLine, state.line]
 
     token = state.push("inline", "", 0)
-    token.content = state.src[pos:maximum].strip()
+    token.content = state.src[pos:maximum].strip(" \t")
     token.map = [startLine, state.line]
     token.children = []
 
